@@ -1,5 +1,6 @@
 use crate::{
     UInt64,
+    core::SerializableType,
     io::{
         logger::{Alter, Create, Delete, DropOp, Insert, Operation, Update},
         wal::AnalysisResult,
@@ -13,7 +14,8 @@ use crate::{
         },
         dml::DmlExecutor,
     },
-    storage::tuple::Row,
+    storage::tuple::{Row, Tuple},
+    tree::bplustree::SearchResult,
 };
 
 use std::io::{Error as IoError, ErrorKind};
@@ -387,6 +389,30 @@ impl WalRecuperator {
             .get_relation(table_id, &builder, &snapshot)?;
 
         let schema = table.schema();
+
+        // A DELETE only marks the row. The mark may never have reached the data file (pages are
+        // written at commit and at checkpoints, the log earlier): then the row is still there,
+        // unmarked - or not there yet, when its INSERT is itself still in the log and the redo
+        // pass is about to bring it back - and there is nothing to take back. Inserting it again
+        // would collide with itself (or with its redo) on a UNIQUE index and fail the recovery.
+        if let Some(row_id) = delete_op.row_id() {
+            let row_id_bytes = UInt64::from(row_id).serialize()?;
+            let mut btree = builder.build_tree(table.root());
+            let marked = if btree.is_empty()? {
+                false
+            } else if let SearchResult::Found(pos) = btree.search(&row_id_bytes, schema)? {
+                btree.with_cell_at(pos, |bytes| {
+                    Tuple::from_slice_unchecked(bytes)
+                        .ok()
+                        .is_some_and(|tuple| tuple.is_deleted())
+                })?
+            } else {
+                false
+            };
+            if !marked {
+                return Ok(());
+            }
+        }
 
         // A logged image is decoded as logged, not through the recovery transaction's
         // snapshot (which would hide images written by transactions it cannot see).
